@@ -1,17 +1,26 @@
 PROP = {
-    "claim": "Proof (in progress, see assumptions): the interpreter model (Model/Interp.lean, a line-by-line mirror of run_op) refines an "
-             "independent SM83 specification (Spec/SM83.lean, written from the opcode bit patterns) — theorems in Props/C05.lean; the model AND "
-             "the spec are both compared with the real interpreter::run_next_op on the real bus for every defined encoding on generated "
-             "register/memory states (registers, flags, PC, SP, cycles, status, touched memory, I/O image).",
+    "claim": "Proof: the interpreter model (Model/Interp.lean, a line-by-line mirror of run_op; decode table regenerated from the source on "
+             "every run) refines an independent SM83 specification (Spec/SM83.lean, written from the opcode bit patterns) for ALL 501 defined "
+             "encodings (245 unprefixed + 256 CB), all operand bytes, all register/flag values and every bus behaviour: theorems "
+             "step_refines_spec / step_refines_impl in Props/C05.lean give A, F (Z/N/H/C), B..L, SP, PC, memory, status and cycles equal to "
+             "the SM83 result under the abstraction abs, and regs_wf gives that every pair stays in 0..65535 with F's low nibble zero. Leaf "
+             "theorems: alu_spec (ADD ADC SUB SBC AND XOR OR CP), rot_spec (RLC RRC RL RR SLA SRA SWAP SRL), daa_spec, add16_spec, "
+             "sp_offset_spec, pop_af_masks_f. The model AND the spec are both compared with the real interpreter::run_next_op on the real "
+             "bus for every defined encoding on generated register/memory states (registers, flags, PC, SP, cycles, status, touched memory, "
+             "I/O image).",
     "note": "Trusted: Lean kernel, gen_ops.py (decoder arms -> Lean Op terms; cross-checked by running decode()), harness/driver, rustc. "
-            "The bus behind the CPU is the validated Bus model of C10.",
-    "technique": "Lean 4 refinement theorems (kernel enumeration + symbolic) over a hand-written interpreter model and regenerated decoder table; "
-                 "three-way differential (implementation / model / SM83 spec)",
+            "The bus behind the CPU is the validated Bus model of C10. The proofs are generic in the bus (any read/write functions).",
+    "technique": "Lean 4 refinement theorems (per-opcode symbolic proof over the regenerated decoder table, kernel enumeration for DAA / "
+                 "rotates / bit operations, omega for carries) over a hand-written interpreter model; three-way differential "
+                 "(implementation / model / SM83 spec)",
     "gen": ["gen_decoder.py", "gen_ops.py"],
     "streams": [{"name": "c05", "shards": {"quick": 4, "thorough": 16}}],
-    "modules": ["GbVerif.Model.Interp", "GbVerif.Model.Cpu", "GbVerif.Model.Op", "GbVerif.Spec.SM83", "GbVerif.Proofs.Enum"],
+    "modules": ["GbVerif.Model.Interp", "GbVerif.Model.Cpu", "GbVerif.Model.Op", "GbVerif.Spec.SM83", "GbVerif.Proofs.Enum", "GbVerif.Proofs.Sm83Bits", "GbVerif.Proofs.Sm83Abs", "GbVerif.Proofs.Sm83Alu", "GbVerif.Proofs.Sm83Rot", "GbVerif.Proofs.Sm83Misc", "GbVerif.Proofs.Sm83Rel", "GbVerif.Proofs.Sm83Cls1", "GbVerif.Proofs.Sm83Cls2", "GbVerif.Proofs.Sm83Cls3", "GbVerif.Proofs.Sm83Leaf", "GbVerif.Proofs.Sm83Main0", "GbVerif.Proofs.Sm83Main1", "GbVerif.Proofs.Sm83Main2", "GbVerif.Proofs.Sm83Main3", "GbVerif.Proofs.Sm83Main4", "GbVerif.Proofs.Sm83Main5", "GbVerif.Proofs.Sm83Main6", "GbVerif.Proofs.Sm83Main7", "GbVerif.Proofs.Sm83MainCB0", "GbVerif.Proofs.Sm83MainCB1", "GbVerif.Proofs.Sm83MainCB2", "GbVerif.Proofs.Sm83MainCB3", "GbVerif.Proofs.Sm83MainCB4", "GbVerif.Proofs.Sm83MainCB5", "GbVerif.Proofs.Sm83MainCB6", "GbVerif.Proofs.Sm83MainCB7", "GbVerif.Proofs.Sm83Main"],
     "rule": "per defined encoding (245 + 256 CB) 120 (thorough 4000) generated states: A/operand bytes biased to nibble/byte carries and BCD edges, "
             "all flag nibbles, pointer registers on every region boundary and inside I/O, code placed in ROM bank 0, the switchable bank, WRAM "
             "or HRAM; every case is distinct by construction of the PRNG stream; non-trivial = the instruction executed",
-    "assumptions": ["F low nibble is zero in generated states (invariant of the interpreter: proved WF preservation pending)"],
+    "assumptions": ["theorem hypothesis WF r: the register file entering the instruction has every pair < 65536 and F's low nibble zero "
+                    "(established by regs_wf for every state reached from a WF state; the reset state is WF)",
+                    "theorem hypothesis ByteBus: bus reads return values < 256 (the Rust bus returns u8)",
+                    "the theorems are about the Lean model of run_op; its tie to the Rust code is the three-way correspondence stream"],
 }
